@@ -407,7 +407,7 @@ def convert_objects_to_global(object_list: List[ObjectType], ego2map: Homogeneou
         elif object.frame_id == "base_link":
             updated_position, updated_rotation = ego2map.transform(object.state.position, object.state.orientation)
             output_object = deepcopy(object)
-            output_object.state.position = updated_position
+            output_object.state.position = tuple(updated_position)
             output_object.state.orientation = updated_rotation
             output_object.frame_id = "map"
             output_object_list.append(output_object)
